@@ -19,12 +19,12 @@ const (
 
 func init() {
 	register(&Property{ID: "C15", Level: "other", Run: runC15,
-		Explanation: "Decided for all CFG paths: (R15.1) every method of the gRPC interface client.APIServer is implemented on *apiServer and contains (or delegates to a request loop that contains) a call to ensureAuthorizationPermission; " +
+		Explanation: "Decided for all CFG paths: (R15.1) every method of the gRPC interface client.APIServer is implemented on *apiServer and contains (or delegates to a request loop that contains) a call to ensureAuthorizationPermission; R15.2 also requires unary handlers to report success only over the ok-edge; R15.8 the tls.client.auth(z).* keys reach their Config fields; R11.1 (shared) SetCursor remembers nothing before its inner publish — the second permission — succeeded." +
 			"(R15.2/R15.3) in every such handler no call that can have an effect (effect analysis over the module SSA: stores/map updates/sends/go on non-local memory, NATS, Raft, gRPC Send, ...) is reachable from the handler entry — or from the request boundary Recv in a streaming loop — without crossing the edge on which the authorisation result is nil, so a denial is terminal and nothing precedes the check; " +
 			"(R15.4) the action asked about is the handler's own method name and the resource is a field of the request; (R15.5) the enforcer is used only under its lock and ensureAuthorizationPermission returns nil only when authorisation is off or Enforce said yes without error; (R15.6) config keys tested with IsSet are the keys read. " +
 			"NOT decided: casbin's matcher semantics, TLS identity extraction, what the effects do once authorised.",
 		Technique:   "static analysis: interface-method coverage + must-cross-edge path search over go/ssa CFGs with an effect (purity) analysis of callees",
-		LevelText:   "Structural clause of the property decided for all paths of all 16 gRPC handlers: no effectful call is reachable before the authorisation ok-edge, a denial is terminal, the question asked is the handler's own method and the request's resource, and the decision procedure returns nil only on an Enforce yes. Level other because four group endpoints have no check at all (known finding), so discharged < obligations; behaviour of casbin and of the effects themselves is not decided.",
+		LevelText:   "Structural clause of the property decided for all paths of all 16 gRPC handlers: no effectful call is reachable before the authorisation ok-edge, a denial is terminal, the question asked is the handler's own method and the request's resource, and the decision procedure returns nil only on an Enforce yes. Level other because four group endpoints have no check at all (known finding), so discharged < obligations; behaviour of casbin and of the effects themselves is not decided. A unary handler reports success only over the authorisation ok-edge; the authorisation settings reach their configuration fields.",
 		LevelNote:   "Trusted: go/types, go/ssa, the effect classification (module functions by analysis, dependencies by allow-list, 8 table entries with reasons in rules/c15.go), casbin semantics, gRPC interceptors putting the verified client id in the context.",
 		DesignRef:   "DESIGN.md §4 C15",
 		Assumptions: []string{"effect/pure classification: module functions by effect analysis, dependencies by the allow-list in eng/purity.go", "internal callers of SubscribeInternal (cursor manager) run with the caller's context by design"},
